@@ -308,17 +308,17 @@ theorem teardown_idempotent (s : St) (a b : Reason) : teardown (teardown s a) b 
 
 /-- **calls_fail_fast_after_close**: in every state in which a `close()` has completed, `send_data`,
 `create_offer`, `set_remote_description(offer)` and `wait_for_connected` return an error at once,
-`create_data_channel` does not block, and a pending `DataChannel::recv` on any channel returns.
+`create_data_channel` is refused (round-4 fix), and a pending `DataChannel::recv` on any channel returns.
 (`wait_for_connected`, `create_offer`, `set_remote_description` already after block A and for every
 schedule: `close_reaches_terminal`.) -/
 theorem calls_fail_fast_after_close (s : St) (arg : Reason) (hp : s.peer ≠ .closed) (hc : s.close = .none)
     (hch : ∀ c ∈ s.chans, ChanOk c) :
     let t := closeSeq s arg
     call t .sendData = .errNow ∧ call t .createOffer = .errNow ∧ call t .setRemoteOffer = .errNow ∧
-    call t .waitForConnected = .errNow ∧ call t .createDataChannel ≠ .pending ∧
+    call t .waitForConnected = .errNow ∧ call t .createDataChannel = .errNow ∧
     ∀ i, call t (.dcRecv i) ≠ .pending := by
   obtain ⟨h1, h2, h3, _, _, _, _⟩ := closeSeq_result s arg hp hc
-  refine ⟨by simp [call, h3], by simp [call, h2], by simp [call, h2], by simp [call, h1], by simp [call], ?_⟩
+  refine ⟨by simp [call, h3], by simp [call, h2], by simp [call, h2], by simp [call, h1], by simp [call, h1], ?_⟩
   intro i
   have hA : step s (.callClose arg) = closeA s arg := by simp [step, enabled, hc, apply]
   have hAc : (closeA s arg).close = .a := by simp [closeA, hp]
@@ -632,6 +632,19 @@ theorem all_pending_calls_released :
     (terminatingEvents.filter fun e => enabled (connectedSt .webrtc true 1) e).all (fun e =>
       settledOK (.senderBlocks :: internalActs) true 60
         (step (run (connectedSt .webrtc true 1) [.senderBlocks, .senderBlocks]) e)) = true := by
+  decide +kernel
+
+set_option maxRecDepth 1000000 in
+/-- **ice_failure_after_grace_expiry_reaches_failed** (audit r3-M3 / 2.9) — the second half of the
+"recoverable" exemption, a two-event row: after ICE `Disconnected` and the grace expiry (the parked "cycling
+transport" state in which `wait_for_connected` keeps waiting), an ICE failure — the consent time-out — ends
+it: along **every** schedule of the implementation's own tasks every quiescent state is `Failed` with a reason,
+the channel closed, and `wait_for_connected` errors at once. (The driving loop must still be watching ICE for
+this: a loop that returned at the grace expiry leaves `Disconnected` for good — driven by `peerVanishThenIceFail`.) -/
+theorem ice_failure_after_grace_expiry_reaches_failed :
+    ([true, false].all fun app =>
+      certified (fun s => !quiescent s || (s.peer == .failed && s.reason.isSome && chansDone s && call s .waitForConnected == .errNow))
+        internalActs 40 (step (run (connectedSt .webrtc app 1) [.iceDisconnect, .drvIce, .drvGrace]) .iceFail)) = true := by
   decide +kernel
 
 /-- While the driving loop is still alive the lenient terminal state is **not** final: after the ICE
